@@ -778,12 +778,22 @@ pub fn do_subscribe(sh: &Arc<Shared>, k: usize) {
       let start = arx_rt::stamp();
       arx_rt::yield_point();
       record(&s2, k, Rk::E(code_of(&e)), start);
+      for (ri, r) in s2.recorders[k].iter().enumerate() {
+        if r.at == AT_TERMINAL {
+          react(&s2, k, ri, &r.what);
+        }
+      }
     },
     move || {
       let _t = &t3;
       let start = arx_rt::stamp();
       arx_rt::yield_point();
       record(&s3, k, Rk::C, start);
+      for (ri, r) in s3.recorders[k].iter().enumerate() {
+        if r.at == AT_TERMINAL {
+          react(&s3, k, ri, &r.what);
+        }
+      }
     },
   );
   lk(&sh.subs)[k] = Some(sub);
